@@ -25,7 +25,7 @@ MANIFEST = {
 ENTRIES = ["neighbors", "find_links", "bft", "dft_recursive", "dft_iterative", "searches", "basic_render", "plantuml",
            "pyvis", "pyvis_customizable"]
 BOUNDS = {"quick": {"vertices": 3, "links": 2}, "thorough": {"vertices": 3, "links": "2-3"}}
-TIME_BUDGET = {"quick": 420, "thorough": 1200}
+TIME_BUDGET = {"quick": 480, "thorough": 1200}
 STUBS = ["call-backs -> uninterpreted functions raising HarnessFault at a symbolic invocation index",
          "pyvis.network.Network -> validated model", "re / datetime -> executed natively on concrete arguments"]
 ASSUMPTIONS = ["call-backs do not mutate the graph themselves"]
@@ -44,6 +44,8 @@ def configs(tier):
             if heavy and tier != "quick":
                 # a second fixed shape in the thorough tier
                 out.append({"entry": e, "callback": cb, "classes": ["UE", "DE", "UE"], "graph": "fixed"})
+    # nrpickler.dump of a vertex of the symbolic graph (the real lazy pickler over an abstract base pickler)
+    out.append({"entry": "dumps", "callback": "none", "classes": ["DE", "UE"], "graph": "symbolic"})
     # faults that are not Exception subclasses (KeyboardInterrupt-like), on one fixed graph
     for e, cb in (("neighbors", "ff"), ("bft", "via"), ("basic_render", "rfunc"), ("plantuml", "urf"), ("pyvis", "rvfunc"), ("pyvis", "refunc")):
         out.append({"entry": e, "callback": cb, "classes": ["DE", "UE", "DE"], "graph": "fixed", "fault_class": "HarnessInterrupt"})
@@ -53,13 +55,85 @@ def configs(tier):
     if tier != "quick":
         for e in ("neighbors", "bft", "basic_render", "pyvis"):
             out.append({"entry": e, "callback": {"neighbors": "ff", "bft": "via", "basic_render": "sort", "pyvis": "rvfunc"}[e],
-                        "classes": ["DE", "DE", "UE"], "graph": "symbolic" if e == "neighbors" else "fixed"})
+                        "classes": ["DE", "DE", "UE"], "graph": "fixed"})
     return out
 
 
 def required_markers(tier):
     return ["fault raised", "no fault"]
 
+
+# An abstract base pickler over REAL objects (what pickle.Pickler.save does, reduced to the order of saves /
+# memoisations and to the instance protocol: class, then the state handed out by __getstate__).  The real
+# _NonrecursivePickler of /repo runs on top of it, so nrpickler.dump visits the real graph symbolically.
+DILL_REAL_SRC = '''
+class Pickler:
+    def __init__(self, file, protocol=None, byref=None, fmode=None, recurse=None, **kw):
+        self.proto = 4 if protocol is None else protocol
+        self.memo = {}
+        self.write = file.write
+
+    def save(self, obj, save_persistent_id=None):
+        if obj is None or isinstance(obj, (bool, int, str)):
+            self.write(("ATOM", obj))
+            return
+        if id(obj) in self.memo:
+            self.write(("GET", self.memo[id(obj)][0]))
+            return
+        if isinstance(obj, type):
+            self.write(("GLOBAL", obj.__name__))
+            self.memoize(obj)
+            return
+        if isinstance(obj, tuple):
+            for x in obj:
+                self.save(x)
+            if id(obj) in self.memo:
+                self.write(("POPGET", self.memo[id(obj)][0]))
+            else:
+                self.write(("TUPLE", len(obj)))
+                self.memoize(obj)
+            return
+        if isinstance(obj, list):
+            self.write(("EMPTY_LIST",))
+            self.memoize(obj)
+            for x in list(obj):
+                self.save(x)
+            self.write(("APPENDS",))
+            return
+        if isinstance(obj, dict):
+            self.write(("EMPTY_DICT",))
+            self.memoize(obj)
+            for k in list(obj):
+                self.save(k)
+                self.save(obj[k])
+            self.write(("SETITEMS",))
+            return
+        # an instance: its class, then the state its class hands out
+        self.save(type(obj))
+        self.write(("NEWOBJ",))
+        self.memoize(obj)
+        self.save(obj.__getstate__())
+        self.write(("BUILD",))
+
+    def memoize(self, obj):
+        assert id(obj) not in self.memo
+        idx = len(self.memo)
+        self.write(("PUT", idx))
+        self.memo[id(obj)] = (idx, obj)
+
+    def dump(self, obj):
+        self.write(("PROTO", self.proto))
+        self.save(obj)
+        self.write(("STOP",))
+
+class File:
+    def __init__(self):
+        self.tokens = []
+
+    def write(self, tok):
+        # the lazy pickler writes the protocol header and the final STOP as bytes itself
+        self.tokens.append(tok[0] if isinstance(tok, tuple) else "BYTES")
+'''
 
 PROG = '''
 from edgegraph.structure import Vertex
@@ -115,6 +189,10 @@ def call(cb):
                 opts = {Vertex: {"type": "object", "show_attrs": ["i"], "title_format": "$id"},
                         plantuml.DirectedEdge: {"v1side": "", "v2side": ">"}, plantuml.UnDirectedEdge: {"v1side": "", "v2side": ""}}
             return plantuml.render_to_plantuml_src(U, opts), None
+        if entry == "dumps":
+            f = File()
+            nrpickler.dump(v, f)
+            return f.tokens, None
         if entry == "pyvis":
             if which == "rvfunc":
                 return netview(make_pyvis_net(U, rvfunc=cb)), None
@@ -126,6 +204,9 @@ def call(cb):
         return None, type(exc).__name__
 
 Vertex.NEIGHBOR_CACHING = caching
+if entry == "dumps":
+    # a vertex that has answered a query before (its cache holds an entry when caching is on)
+    neighbors(v)
 s0 = snap()
 base = call(cb_ok)
 s1 = snap()
@@ -215,6 +296,10 @@ def scenario(B, p):
            "uni": (U if B.choice("with_universe", 2) else None) if e in ("bft", "dft_recursive", "dft_iterative", "searches") else U,
            "d": B.int("direction", 0, 2) if e == "neighbors" else 1,
            "entry": e, "which": cbk, "cb_ok": cb_ok, "cb_fault": cb_fault, "caching": B.bool("caching")}
+    if e == "dumps":
+        fake = B.with_fake_dill(DILL_REAL_SRC)
+        env["nrpickler"] = fake["nrpickler"]
+        env["File"] = fake["File"]
     for k, val in snapshot_assoc(B, verts, links, [U]).items():
         B.observe(k, val)
     out = B.run(PROG, env)
